@@ -94,11 +94,11 @@ static int roundtrip(const char ** text, size_t * tlen) {
     SCPI_Input(V->ctx, q, 6);
 #endif
     n = V->out.len;
-    if (R.emitted != 1 || n < 2 || V->out.p[n - 2] != '\r' || V->out.p[n - 1] != '\n' || V->nerrs) {
+    if (R.emitted != 1 || n < sizeof SCPI_LINE_ENDING - 1 || memcmp(V->out.p + n - (sizeof SCPI_LINE_ENDING - 1), SCPI_LINE_ENDING, sizeof SCPI_LINE_ENDING - 1) != 0 || V->nerrs) {
         vh_violation("C07:emit-failed", "result kind %s: emitted=%d out=\"%s\" errs=%d", kind_names[S.kind], R.emitted, vh_esc(V->out.p, n), V->nerrs);
         ctx_fresh(); return 0;
     }
-    n -= 2;
+    n -= sizeof SCPI_LINE_ENDING - 1;
     vh_buf_reset(&msg);
     vh_buf_adds(&msg, "READ ");
     vh_buf_add(&msg, V->out.p, n);
@@ -411,7 +411,8 @@ static uint64_t p6_count(int thorough) {
 }
 static void p6_run(uint64_t idx, vh_rng_t * rng) {
     double d; uint64_t b;
-    switch (idx % 6) {
+    switch (idx % 7) {
+        case 6: d = ldexp(1.0, (int) vh_below(rng, 2098) - 1074); if (vh_chance(rng, 1, 2)) d = nextafter(d, vh_chance(rng, 1, 2) ? 0 : INFINITY); vh_count("fp.power_of_two_or_neighbour", 1); break; /* images of integer type limits */
         case 0: b = vh_rand(rng); memcpy(&d, &b, 8); break;
         case 1: d = pow(10.0, (double) ((int) vh_below(rng, 617) - 308)); if (vh_chance(rng, 1, 2)) d = nextafter(d, vh_chance(rng, 1, 2) ? 0 : INFINITY); break;
         case 2: d = (double) (int64_t) (vh_rand(rng) >> vh_below(rng, 64)) / pow(10.0, vh_below(rng, 20)); break;
@@ -499,7 +500,7 @@ int main(int argc, char ** argv) {
     int rc;
     vh_require("int.roundtrips"); vh_require("text.roundtrips"); vh_require("text.with_double_quote"); vh_require("block.roundtrips");
     vh_require("block.empty"); vh_require("block.len_ge_1000"); vh_require("fp.double_roundtrips"); vh_require("fp.float_roundtrips"); vh_require("array.roundtrips");
-    vh_require("int.negative64"); vh_require("array.long.more_than_32768_items"); vh_require("array.long.more_than_65536_items");
+    vh_require("int.negative64"); vh_require("fp.power_of_two_or_neighbour"); vh_require("array.long.more_than_32768_items"); vh_require("array.long.more_than_65536_items");
     rc = vh_main(argc, argv, "C07", phases, 9);
     return rc;
 }
